@@ -47,8 +47,10 @@ LEVEL_TEXT = ("Proof about an executable Lean model at two levels. Pure level: l
               "lives on fresh blocks and clone+release restores the heap; releasing a value frees exactly its footprint, each block "
               "once; insert copies; remove transfers ownership; the key/key_orig aliasing protocol of map entries (F10). Tied to the C "
               "by family val: random operation sequences on the real library under ASan/UBSan, compared step by step with the pure "
-              "model and, independently, with a Python transcription of the documented contracts.")
-LEVEL_NOTE = ("Pure level proved in full. Heap level partial as listed (per-entry rather than whole-map lookup; set-onto-existing not "
-              "stated). Three open findings (F32 source inside clone target / self-clone, F33 duplicate names in cif_packet_create) are "
+              "model and, independently, with a Python transcription of the documented contracts; and by family valheap: the same "
+              "sequences with the allocation tracker on, the per-operation change in live heap blocks compared with the heap "
+              "model run on the sequence.")
+LEVEL_NOTE = ("Pure level proved in full. Heap level proved for every value / list / map / packet operation except the unreachable "
+              "convert_to_standalone and allocation failures (C17). Three open findings (F32 source inside clone target / self-clone, F33 duplicate names in cif_packet_create) are "
               "reported as KNOWN-FINDING; the model reproduces the pinned behaviour (C19_cex_clone_alias, C19_cex_packet_create_dup).")
 TECHNIQUE = "Lean 4 proof (refinement of an association list to an abstract map; induction over operation histories) + differential execution of random operation sequences under ASan"
